@@ -36,6 +36,13 @@ Bounded exhaustive exploration on the real ChoiceSetsGeneration / GenerateModel 
          alternative x EVERY answer of the sampler (odometer over all combinations of rows per request): refused, or the clauses
          of the statement that are still defined hold (chosen first, no alternative twice, count and correction of every
          stratum that has a size).
+ part L  (labelings of the alternatives) the identifiers are arbitrary distinct integers: the same table relabelled through every
+         labeling of a menu - the alternative at table position p relabelled 0 (every p < J), 0-based coding 0..J-1, negative /
+         zero / positive mixed, all negative, beyond 2**31 - x every partition into <= 3 strata of J = 4 (thorough: J = 4, 5; for
+         J = 4 also the reversed order of the strata and 3 specifications) x every size vector x every chosen alternative x EVERY
+         answer of the sampler; and with a second sample: one complete first stratum x every MEV partition into <= 2 strata (and
+         two that do not cover the table) sampled completely (thorough, J = 4: every MEV size vector), nested / cross-nested
+         rotating.  Unchanged oracles.
 
 Oracles (reference: vf/ref_sampling.py, plain Python):
   per generated row  - chosen first, no duplicates, exactly k_s per stratum (chosen counts), members = what the
@@ -64,7 +71,8 @@ TECHNIQUE = ('bounded exhaustive enumeration of partitions x sample sizes x choi
              'set); every list of overlapping segments (non-partition) refused or free of duplicates; bounded histories of '
              'model-building calls on one GenerateModel object, every expression evaluated afterwards; malformed tables / size '
              'vectors (id on two rows, fewer / more sizes, strata not covering) refused or still within the protocol under every '
-             'sampler answer')
+             'sampler answer; the alternatives relabelled through every labeling of a menu of identifier values (0 at every table '
+             'position, 0-based, negative, mixed signs, beyond int32), the whole first-sample space enumerated again under each')
 RULE = ('one case per generated row = (alternative table, partition, size vector, specification, chosen alternative, '
         'answer of the first sampler [, MEV partition, MEV sizes, answer of the second sampler]) and one case per '
         '(generated table, model, parameter point) likelihood comparison. A row is non-trivial when the sampler had a '
@@ -86,7 +94,11 @@ RULE = ('one case per generated row = (alternative table, partition, size vector
         'pairs on every fully sampled context, all triples on every 16th, 2 rotating triples elsewhere), 1-2 rotating pairs for '
         'the other contexts with a second sample, logit-logit for fully sampled / every 4th (2nd) context without one; '
         'evaluation order alternates. Part D: one case per (kind of malformation, partition, size vector, role, duplicated id, '
-        'place of the duplicate row), all chosen alternatives and all sampler answers inside.')
+        'place of the duplicate row), all chosen alternatives and all sampler answers inside. Part L: the cases of part A (J = 4, one '
+        'rotating specification, strata in canonical order; thorough: J = 4, 5, and for J = 4 reversed order, 3 specifications, every MEV size vector) and the '
+        'fully sampled one-first-stratum contexts of part B enumerated again under each of J + 4 labelings of the alternatives '
+        '(zero@p for every table position p, from0, around0, negative, large); a labeling is part of the case key, finding keys '
+        'carry its class (ids-with-0 / ids-negative-0-positive / ids-negative / ids-beyond-int32); tables of 3 rows, then 32 (48).')
 ASSUMPTIONS = [
     'the only random source of the generator is pandas.DataFrame.sample called from sampling_of_alternatives.py; the seam '
     'counts its calls, so a bypass (another random source) is reported as a violation, not missed',
@@ -111,6 +123,12 @@ ASSUMPTIONS = [
     'part D: inputs outside the statement\'s domain; only the outcome refused / clauses-hold is demanded, a table with one id on '
     'two rows that is accepted and yields that id twice in one choice set is reported (clause "contains no alternative twice"); '
     'fewer / more sizes than strata and non-covering strata that are accepted are observations unless a defined clause breaks',
+    'part L: identifier VALUES only (Python ints in an int64 column; float / string / numpy-scalar identifiers are not explored); '
+    'the nest forms, histories and hand-over forms of parts F, G, H, S and the malformed inputs of parts P, D, V are explored under '
+    'the seed\'s identifiers only; under the labeling beyond 2**31 a mismatch of the NESTED model is counted, not reported: the '
+    'external engine stores the members of a BelongsTo set in single precision (open finding '
+    'C01|engine-value|belongs:set-member-not-representable-in-single-precision), protocol rows, logit and cross-nested models are '
+    'checked as everywhere',
     'likelihoods are compared at relative 1e-10 (+1e-12); rows whose sampled nested/CNL term needs log(0) (a nest with no '
     'sampled MEV member) are out of domain and counted',
 ]
@@ -284,6 +302,69 @@ def cnl_for(J, name):
     return out
 
 
+# ----------------------------------------------------------------------------- part L: labelings of the alternatives
+# The statement quantifies over ALL alternative tables: the identifiers are arbitrary distinct integers.  The seed alphabets
+# above are small positive integers (0 only in alphabet 3, at one position); part L re-runs the protocol / likelihood oracles
+# with the SAME table relabelled through every labeling of this menu (defined on the 6 table positions):
+#   zero@p   the seed's identifiers, the alternative at table position p relabelled 0 (every p < J)
+#   from0    0, 1, 2, ... in table order (the usual 0-based coding)
+#   around0  negative, zero and positive identifiers, unsorted
+#   negative the seed's identifiers negated
+#   large    the seed's identifiers shifted beyond 2**31 (not representable as int32)
+_SEED_IDS = list(IDS)
+_BASE_IDS = [a if a != 0 else max(IDS) + 1 for a in IDS]   # the seed's identifiers without a 0 (alphabet 3 has one)
+_AROUND0 = [2, -1, 0, 1, -3, 3]
+
+
+def labelings(J):
+    return [f'zero@{p}' for p in range(J)] + ['from0', 'around0', 'negative', 'large']
+
+
+def labeling_ids(lab):
+    """the 6 identifiers of the table positions under labeling `lab` (None = the seed's own)"""
+    if not lab:
+        return list(_SEED_IDS)
+    if lab.startswith('zero@'):
+        p = int(lab[5:])
+        return [0 if i == p else a for i, a in enumerate(_BASE_IDS)]
+    if lab == 'from0':
+        return list(range(len(_BASE_IDS)))
+    if lab == 'around0':
+        return list(_AROUND0)
+    if lab == 'negative':
+        return [-a for a in _BASE_IDS]
+    if lab == 'large':
+        return [a + 2 ** 31 for a in _BASE_IDS]
+    raise ValueError(lab)
+
+
+def lab_class(lab):
+    """coarse class of a labeling for finding keys"""
+    if not lab:
+        return None
+    if lab.startswith('zero@') or lab == 'from0':
+        return 'ids-with-0'
+    return {'around0': 'ids-negative-0-positive', 'negative': 'ids-negative', 'large': 'ids-beyond-int32'}[lab]
+
+
+class use_labeling:
+    """Everything below reads the identifiers from the module-level IDS at call time: swap it for the duration of one table."""
+
+    def __init__(self, lab):
+        self.ids = labeling_ids(lab)
+
+    def __enter__(self):
+        global IDS
+        self.saved = IDS
+        IDS = self.ids
+        return self.ids
+
+    def __exit__(self, *exc):
+        global IDS
+        IDS = self.saved
+        return False
+
+
 # ----------------------------------------------------------------------------- biogeme side
 def build_spec(spec):
     """The biogeme counterpart of ref_sampling.SPECS[spec] (same operation order)."""
@@ -453,6 +534,15 @@ def uninstall():
     _ACTIVE['seam'] = None
 
 
+def _single_exact(a):
+    """is the identifier exactly representable as a single-precision float (what the external engine stores set members in)"""
+    import struct
+    try:
+        return struct.unpack('f', struct.pack('f', float(a)))[0] == float(a)
+    except OverflowError:
+        return False
+
+
 def _fnum(x):
     try:
         v = float(x)
@@ -466,12 +556,19 @@ def table_key(t):
     return ((t['J'], tuple(map(tuple, t['part1'])), tuple(t['k1']),
             None if t.get('part2') is None else (tuple(map(tuple, t['part2'])), tuple(t['k2'])), t['spec'], t.get('mv'))
             + ((t['hist'],) if (t.get('hist') or 'h0') != 'h0' else ())
-            + ((form_class(t),) if form_class(t) else ()))
+            + ((form_class(t),) if form_class(t) else ())
+            + ((('ids', t['lab']),) if t.get('lab') else ()))
 
 
 def run_table(t, rec: Rec):
+    """One table under its labeling of the alternatives (t['lab'], part L; absent = the seed's identifiers)."""
+    with use_labeling(t.get('lab')):
+        _run_table(t, rec)
+
+
+def _run_table(t, rec: Rec):
     """Generates one table with the real library (sampler owned) and applies every oracle.
-    t: dict(J, part1, k1, part2|None, k2|None, spec, mv, idx, rows=[dict(c, a1, a2|None, u)])"""
+    t: dict(J, part1, k1, part2|None, k2|None, spec, mv, idx, rows=[dict(c, a1, a2|None, u)] [, lab])"""
     import pandas as pd
     from biogeme.partition import Partition
     from biogeme.sampling_of_alternatives import SamplingContext, ChoiceSetsGeneration, GenerateModel
@@ -495,11 +592,15 @@ def run_table(t, rec: Rec):
     hclass = hist_class(hist)
     sform, pform = t.get('sform') or 'list', t.get('pform') or 'list'
     fclass = form_class(t)
+    lclass = lab_class(t.get('lab'))
 
     def viol(clause, witness, what, expected=None, observed=None, row=None):
         case = dict(t)
         if row is not None:
             case = dict(t, focus_row=row)
+        if lclass:
+            witness = f'{witness}|{lclass}'
+            what = f'{what}; LABELING of the alternatives: {t["lab"]} (identifiers {all_ids})'
         if fclass:
             witness = f'{witness}|{fclass}'
             what = f'{what}; HANDED OVER as: sample sizes {sform}, partition {pform}'
@@ -788,7 +889,7 @@ def run_table(t, rec: Rec):
         key = (table_key(t), c, repr(r['a1']), repr(r.get('a2')), r['u'] % len(IND_POOL)) if nontrivial else None
         rec.case(key, (table_key(t), ri, ids1, ids2, [got.get(f'_log_proba_{i}') for i in range(K1)]),
                  outcome=(tuple(sorted(set(fails))) or 'ok', len(part1), full1, k1[sc] == 1, part2 is not None and full2, mv)
-                 + ((hclass,) if hclass else ()) + ((fclass,) if fclass else ()))
+                 + ((hclass,) if hclass else ()) + ((fclass,) if fclass else ()) + ((lclass,) if lclass else ()))
         row_ok.append(not fails)
 
     # ---- likelihoods
@@ -965,7 +1066,10 @@ def _likelihood(t, rec, viol, ctx, database, kind, struct, rows, inds, by_id, al
             okf = R.close(val, totf)
         rec.case((table_key(t), kind, struct, pi, tuple((r['c'], repr(r['a1']), repr(r.get('a2'))) for r in rows)) + gtag,
                  (table_key(t), kind, struct, pi, round(val, 9)) + gtag,
-                 outcome=('ll', kind, full, ok, okf) + ((form,) if form != 'named' else ()) + ((gw,) if gw else ()))
+                 outcome=('ll', kind, full, ok, okf) + ((form,) if form != 'named' else ()) + ((gw,) if gw else ())
+                 + ((lab_class(t['lab']),) if t.get('lab') else ()))
+        if t.get('lab'):
+            rec.count('labeling_likelihood_comparisons')
         if form != 'named':
             rec.count('nest_form_comparisons')
         if gw:
@@ -974,6 +1078,16 @@ def _likelihood(t, rec, viol, ctx, database, kind, struct, rows, inds, by_id, al
         if full:
             rec.count('full_sample_equivalences')
         trivial_point = 'all-zero-point' if all(p[n] == 0.0 for n in R.SPECS[spec]['params']) else 'point'
+        if kind == 'nested' and t.get('lab') and not all(_single_exact(a) for a in all_ids) and not (ok and okf):
+            # open finding C01|engine-value|belongs:set-member-not-representable-in-single-precision (external engine): the
+            # nested model tests nest membership with BelongsTo(id, members); observed and counted, not reported again here
+            rec.count('observed_nested_mismatch_ids_not_single_precision_exact_engine_finding_C01')
+            rec.violation('C19|full-sample-likelihood-differs-from-full-model:nested|identifiers-not-representable-in-single-precision',
+                          f'nested model on a sampled table whose alternative identifiers {all_ids} are not exactly representable in '
+                          f'single precision: log likelihood {val!r}, the full model gives {totf!r} at {p} (the nest membership test '
+                          f'BelongsTo(id, members) of the external engine reads the members in single precision)', dict(t),
+                          expected=totf, observed=val)
+            continue
         if not okf:
             viol(f'full-sample-likelihood-differs-from-full-model:{kind}', fw,
                  f'every stratum sampled completely, yet the {kind} ({struct}) log likelihood of the generated table is {val!r} and '
@@ -1072,15 +1186,46 @@ def contexts(tier):
     return out
 
 
+def contexts_L(tier):
+    """part L: the contexts re-run under every labeling of the alternatives (identifiers 0 / negative / beyond int32)."""
+    out = []
+    for J in ([4] if tier == 'quick' else [4, 5]):
+        for li, lab in enumerate(labelings(J)):
+            with use_labeling(lab):
+                ids = IDS[:J]
+                # first sample only: every partition into <= 3 strata x every size vector (x every choice x every answer)
+                for pi, part in enumerate(R.set_partitions(ids, 3)):
+                    # (the order of the strata is a dimension of part A; here the reversed order in the thorough tier only)
+                    variants = [part] if (tier == 'quick' or J > 4 or pi % 2 == 0 or len(part) == 1) else [part, part[::-1]]
+                    for pv in variants:
+                        for k in R.size_vectors(pv):
+                            specs = SPEC_NAMES if (tier != 'quick' and J == 4) else [SPEC_NAMES[(pi + sum(k) + li) % 3]]
+                            for sp in specs:
+                                out.append(dict(part='L', lab=lab, J=J, part1=pv, k1=k, part2=None, k2=None, spec=sp, mv=None,
+                                                choices=list(ids)))
+                # with a second (MEV) sample: one first stratum, every MEV partition into <= 2 strata (and the two that do not
+                # cover the table), both samples complete (thorough: every MEV size vector), nested / cross-nested rotating
+                p1 = [ids]
+                k1 = [J]
+                seconds = R.set_partitions(ids, 2) + [[[ids[0], ids[2]]], [[ids[0]], [ids[1], ids[2]]]]
+                for s_i, p2 in enumerate(seconds):
+                    for k2 in ([[len(b) for b in p2]] if (tier == 'quick' or J > 4) else R.size_vectors(p2)):
+                        mv = ['N', 'C0', 'C1'][(s_i + li + sum(k2)) % 3]
+                        sp = SPEC_NAMES[(s_i + li + sum(k2) + len(mv)) % 3]
+                        out.append(dict(part='L', lab=lab, J=J, part1=p1, k1=k1, part2=p2, k2=k2, spec=sp, mv=mv,
+                                        choices=list(ids)))
+    return out
+
+
 ROWS_PER_TASK = 260
 
 
 def tasks(tier, seed):
-    ctxs = contexts(tier)
+    ctxs = contexts(tier) + contexts_L(tier)
     out = []
     cur, cur_rows = [], 0
     for n, c in enumerate(ctxs):
-        ids = IDS[:c['J']]
+        ids = c.get('choices') or IDS[:c['J']]
         c = dict(c, n=n, choices=list(ids))
         rows = ctx_rows(c)
         if rows > ROWS_PER_TASK:
@@ -1144,6 +1289,8 @@ def tables_of(ctx, tier):
         rows.append(dict(c=c, a1=a1, a2=a2, u=u))
         u += 1
     sizes = [1, 3]
+    if ctx.get('lab'):
+        sizes, T = [3], 2 * T   # part L: the 3-row table (also recycled) and large tables
     i = 0
     ti = 0
     out = []
@@ -1152,8 +1299,14 @@ def tables_of(ctx, tier):
         chunk = rows[i:i + sz]
         out.append(dict(J=J, part1=ctx['part1'], k1=ctx['k1'], part2=ctx.get('part2'), k2=ctx.get('k2'),
                         spec=ctx['spec'], mv=ctx.get('mv'), idx=(ti + ctx.get('n', 0)) % 2, rows=chunk))
+        if ctx.get('lab'):
+            out[-1]['lab'] = ctx['lab']
         i += sz
         ti += 1
+    if ctx.get('lab'):
+        # part L: the plain tables under another labeling; the nest forms / histories / hand-over forms of parts F, G, H, S are
+        # explored under the seed's identifiers only
+        return out
     n = ctx.get('n', 0)
     full = (all(k == len(b) for k, b in zip(ctx['k1'], ctx['part1']))
             and (ctx.get('part2') is None or all(k == len(b) for k, b in zip(ctx['k2'], ctx['part2']))))
@@ -1237,6 +1390,8 @@ def run_task(task):
                 for t in tables_of(ctx, task.get('tier', 'quick')):
                     run_table(t, rec)
                     rec.count('generated_tables')
+                    if t.get('lab'):
+                        rec.count('generated_tables_under_another_labeling')
                     if first and len(t['rows']) > 1:
                         rec.sample(dict(J=t['J'], partition=t['part1'], sizes=t['k1'], mev_partition=t['part2'],
                                         mev_sizes=t['k2'], spec=t['spec'], mv=t['mv'],
